@@ -83,6 +83,9 @@ Plan generate_c11x(uint64_t seed);   // the reconnect machinery on its own (mini
 Plan generate_diff(uint64_t seed);
 // identifier exhaustion (65535 + n outstanding QoS 1 publishes) and identifier leak (70000 rejected requests) scenarios (C08, C15)
 Plan generate_exhaust(uint64_t seed);
+// serial-number wrap (C06): a QoS>0 publish stays unacknowledged while 2^15 .. 2^16+ further publishes are initiated, then another
+// QoS>0 publish, then the connection is given up: the retransmissions must still leave in initiation order
+Plan generate_serialwrap(uint64_t seed);
 // C20: one short exchange per (category, reason-code byte, chunking); index = chunk * 2304 + category * 256 + byte
 Plan generate_rc(uint64_t index);
 
